@@ -551,6 +551,7 @@ structure Shape where
   /-- the argument names a variable that is assigned in the module/class body or documented by an
   `ivar`/`cvar`/`var` field of the same docstring (so the `Attribute` has a kind and is displayed) -/
   attrKnown : Bool
+  deriving DecidableEq, Repr
 
 structure Outcome where
   /-- heading of `FieldHandler.format()` under which the field's body is displayed -/
